@@ -487,10 +487,13 @@ def run_side(exe, cases, env=None, timeout_per_batch=300, sanitizer=False, cwd=N
             partial = []
         results[bad] = partial + ["fault " + summarize_sanitizer(err, rc)]
         start = bad + 1
+        deaths = sum(1 for r in results if r and r[-1].startswith("fault "))
         if rc == -999:
             hangs += 1
-            if hangs >= 3:      # a tree that hangs repeatedly: do not spend the timeout on every remaining case
-                break
+        if hangs >= 3 or deaths >= 40:
+            # a tree that hangs repeatedly or dies on most inputs: the verdict is already clear; do not pay a process
+            # restart (or the full timeout) for every remaining case
+            break
     return results
 
 
